@@ -542,37 +542,184 @@ theorem gen_sign_tests :
     rw [Bool.eq_iff_iff]
     simp [isFront, PW.Gen.Cmp.test, PW.Gen.PolySlice.frontCmp, PW.Gen.PolySlice.frontSign]
 
-/-- the index offsets: the polyline is split at `transition_points + 1`, the sign of a component is read at `0` and at
-    `transition_points + 1` (the model's `cuts = (transitionPoints signs).map (· + 1)`, `componentSigns` over `0 :: cuts`). -/
+/-- `slice_open_polyline_by_plane` written out with every literal, operator, offset, index, refusal (order, tested
+    quantity, class) and argument order *as generated from the source*; `gen_open_slicer` proves it is the model's
+    `sliceOpenRunsG`.  `CIF` / `COMPONENTS` name the list whose length a refusal tests; `neighbour` / `run` name the two
+    arguments of the crossing helper. -/
+def genSliceOpenRuns {α β : Type} (sg : α → Int) (cross : α → α → β) (keep : α → β) (vs : List α) : Res (List β) :=
+  if PW.Gen.PolySlice.emptyCmp.test (vs.length : Int) PW.Gen.PolySlice.emptyRhs then
+    .error (PW.Gen.errOfName PW.Gen.PolySlice.emptyRaises) else
+  let signs := vs.map sg
+  let tp := nonzeroFrom 0 (List.zipWith (fun a b => PW.Gen.PolySlice.transitionCmp.test a b) signs signs.tail)
+  let cutsSplit := tp.map fun (t : Nat) => (PW.Gen.PolySlice.splitCoef * (t : Int) + PW.Gen.PolySlice.splitOffset).toNat
+  let cutsSign := tp.map fun (t : Nat) => (PW.Gen.PolySlice.signIndexCoef * (t : Int) + PW.Gen.PolySlice.signIndexOffset).toNat
+  let components := vsplitFrom 0 vs cutsSplit
+  let componentSigns := (PW.Gen.PolySlice.signIndexFirst.toNat :: cutsSign).map fun i => signs.getD i 0
+  let cif := nonzeroFrom 0 (componentSigns.map fun s => PW.Gen.PolySlice.frontCmp.test s PW.Gen.PolySlice.frontSign)
+  let lenOf : String → Int := fun s =>
+    if s = "CIF" then (cif.length : Int) else if s = "COMPONENTS" then (components.length : Int) else -1
+  let raised : Nat → Err := fun i => PW.Gen.errOfName (PW.Gen.PolySlice.refusalRaises.getD i "")
+  if PW.Gen.PolySlice.noneInFrontCmp.test (lenOf PW.Gen.PolySlice.noneInFrontOf) PW.Gen.PolySlice.noneInFrontRhs then
+    .error (raised 0)
+  else if PW.Gen.PolySlice.tooManyCmp.test (lenOf PW.Gen.PolySlice.tooManyOf) PW.Gen.PolySlice.tooManyRhs then
+    .error (raised 1)
+  else if PW.Gen.PolySlice.allInFrontCmp.test (lenOf PW.Gen.PolySlice.allInFrontOf) PW.Gen.PolySlice.allInFrontRhs then
+    .error (raised 2)
+  else
+    match cif with
+    | [c] =>
+      let vertsInFront := components.getD c []
+      match PW.Gen.pyGet? vertsInFront PW.Gen.PolySlice.prependRunIndex,
+            PW.Gen.pyGet? vertsInFront PW.Gen.PolySlice.appendRunIndex with
+      | some first, some last =>
+        let pick : String → α → α → Option α := fun s nb run =>
+          if s = "neighbour" then some nb else if s = "run" then some run else none
+        let crossOf : List String → α → α → Res (List β) := fun order nb run =>
+          match pick (order.getD 0 "") nb run, pick (order.getD 1 "") nb run with
+          | some x, some y => .ok [cross x y]
+          | _, _ => .error .Other
+        let prepend : Res (List β) :=
+          if PW.Gen.PolySlice.prependGuardCmp.test ((c : Int) + PW.Gen.PolySlice.prependGuardOffset)
+              PW.Gen.PolySlice.prependGuardRhs then
+            match PW.Gen.pyGet? (components.getD ((c : Int) + PW.Gen.PolySlice.prependCompOffset).toNat [])
+                PW.Gen.PolySlice.prependRowIndex with
+            | some adjacent =>
+              if PW.Gen.PolySlice.prependOnPlaneCmp.test
+                  (componentSigns.getD ((c : Int) + PW.Gen.PolySlice.prependSignOffset).toNat 0)
+                  PW.Gen.PolySlice.prependOnPlaneRhs then .ok [keep adjacent]
+              else crossOf PW.Gen.PolySlice.prependCrossOrder adjacent first
+            | none => .error .IndexError
+          else .ok (List.replicate PW.Gen.PolySlice.prependEmptyRows.toNat (keep first))
+        let append : Res (List β) :=
+          if PW.Gen.PolySlice.appendGuardCmp.test ((c : Int) + PW.Gen.PolySlice.appendGuardOffset)
+              (components.length : Int) then
+            match PW.Gen.pyGet? (components.getD ((c : Int) + PW.Gen.PolySlice.appendCompOffset).toNat [])
+                PW.Gen.PolySlice.appendRowIndex with
+            | some adjacent =>
+              if PW.Gen.PolySlice.appendOnPlaneCmp.test
+                  (componentSigns.getD ((c : Int) + PW.Gen.PolySlice.appendSignOffset).toNat 0)
+                  PW.Gen.PolySlice.appendOnPlaneRhs then .ok [keep adjacent]
+              else crossOf PW.Gen.PolySlice.appendCrossOrder adjacent last
+            | none => .error .IndexError
+          else .ok (List.replicate PW.Gen.PolySlice.appendEmptyRows.toNat (keep last))
+        match prepend, append with
+        | .ok pre, .ok app => .ok (pre ++ vertsInFront.map keep ++ app)
+        | .error e, _ => .error e
+        | _, .error e => .error e
+      | _, _ => .error .IndexError
+    | _ => .error .Other
+
+theorem pyGet?_zero {α : Type} (l : List α) : PW.Gen.pyGet? l 0 = l.head? := by
+  cases l <;> simp [PW.Gen.pyGet?]
+
+theorem pyGet?_neg_one {α : Type} (l : List α) : PW.Gen.pyGet? l (-1) = l.getLast? := by
+  rw [List.getLast?_eq_getElem?]
+  cases l <;> simp [PW.Gen.pyGet?]
+
+/-- [semantic] the whole open slicer: the model's `sliceOpenRunsG` IS the function obtained from the generated literals —
+    the `num_v == 0` refusal, the transition test, the `+ 1` split and sign-index offsets and the leading `0`, the
+    `== 1` front test, the three refusals in the source's order (tested list, operator, bound, class), the run
+    `COMPONENTS[C]`, and in the prepend / append blocks the guards (`C > 0`, `C + 1 < len(COMPONENTS)`), the neighbour
+    (`COMPONENTS[C ∓ 1][-1 | 0]`), the on-plane test (`CSIGNS[C ∓ 1] == 0`), the argument order of the crossing helper
+    and the run end it uses (`FRONT[0]`, `FRONT[-1]`), and the empty row blocks (`np.zeros((0, 3))`).
+    This is what ties `gen_cut_offsets`, `gen_refusals` and `gen_run_ends` to the model. -/
+theorem gen_open_slicer {α β : Type} (sg : α → Int) (cross : α → α → β) (keep : α → β) (vs : List α) :
+    sliceOpenRunsG sg cross keep vs = genSliceOpenRuns sg cross keep vs := by
+  have hT : (fun a b : Int => PW.Gen.PolySlice.transitionCmp.test a b) = (fun a b => a != b) := by
+    funext a b
+    rw [Bool.eq_iff_iff]
+    simp [PW.Gen.Cmp.test, PW.Gen.PolySlice.transitionCmp]
+  have hF : (fun s : Int => PW.Gen.PolySlice.frontCmp.test s PW.Gen.PolySlice.frontSign) = (· == 1) := by
+    funext s
+    rw [Bool.eq_iff_iff]
+    simp [PW.Gen.Cmp.test, PW.Gen.PolySlice.frontCmp, PW.Gen.PolySlice.frontSign]
+  have hS : (fun t : Nat => (PW.Gen.PolySlice.splitCoef * (t : Int) + PW.Gen.PolySlice.splitOffset).toNat) = (· + 1) := by
+    funext t
+    simp only [PW.Gen.PolySlice.splitCoef, PW.Gen.PolySlice.splitOffset]
+    omega
+  have hI : (fun t : Nat => (PW.Gen.PolySlice.signIndexCoef * (t : Int) + PW.Gen.PolySlice.signIndexOffset).toNat)
+      = (· + 1) := by
+    funext t
+    simp only [PW.Gen.PolySlice.signIndexCoef, PW.Gen.PolySlice.signIndexOffset]
+    omega
+  have e1 : ∀ c : Nat, ((c : Int) + -1).toNat = c - 1 := by intro c; omega
+  have e2 : ∀ c : Nat, ((c : Int) + 1).toNat = c + 1 := by intro c; omega
+  unfold genSliceOpenRuns sliceOpenRunsG
+  simp only [hT, hF, hS, hI, transitionPoints]
+  simp only [PW.Gen.PolySlice.emptyCmp, PW.Gen.PolySlice.emptyRhs, PW.Gen.PolySlice.emptyRaises,
+    PW.Gen.PolySlice.signIndexFirst, PW.Gen.PolySlice.noneInFrontCmp, PW.Gen.PolySlice.noneInFrontOf,
+    PW.Gen.PolySlice.noneInFrontRhs, PW.Gen.PolySlice.tooManyCmp, PW.Gen.PolySlice.tooManyOf,
+    PW.Gen.PolySlice.tooManyRhs, PW.Gen.PolySlice.allInFrontCmp, PW.Gen.PolySlice.allInFrontOf,
+    PW.Gen.PolySlice.allInFrontRhs, PW.Gen.PolySlice.refusalRaises, PW.Gen.PolySlice.prependRunIndex,
+    PW.Gen.PolySlice.appendRunIndex, PW.Gen.PolySlice.prependGuardCmp, PW.Gen.PolySlice.prependGuardOffset,
+    PW.Gen.PolySlice.prependGuardRhs, PW.Gen.PolySlice.prependCompOffset, PW.Gen.PolySlice.prependRowIndex,
+    PW.Gen.PolySlice.prependOnPlaneCmp, PW.Gen.PolySlice.prependSignOffset, PW.Gen.PolySlice.prependOnPlaneRhs,
+    PW.Gen.PolySlice.prependCrossOrder, PW.Gen.PolySlice.prependEmptyRows, PW.Gen.PolySlice.appendGuardCmp,
+    PW.Gen.PolySlice.appendGuardOffset, PW.Gen.PolySlice.appendCompOffset, PW.Gen.PolySlice.appendRowIndex,
+    PW.Gen.PolySlice.appendOnPlaneCmp, PW.Gen.PolySlice.appendSignOffset, PW.Gen.PolySlice.appendOnPlaneRhs,
+    PW.Gen.PolySlice.appendCrossOrder, PW.Gen.PolySlice.appendEmptyRows, PW.Gen.errOfName, PW.Gen.Cmp.test,
+    pyGet?_zero, pyGet?_neg_one, e1, e2]
+  simp only [Int.toNat_zero, String.reduceEq, if_true, if_false, List.getD_cons_zero, List.getD_cons_succ,
+    decide_eq_true_eq, Int.natCast_eq_zero, ite_true, ite_false, reduceIte]
+  split
+  · rfl
+  · split
+    · rename_i heq
+      simp only [heq, List.length_nil]
+      rw [if_pos (by simp)]
+    · rename_i heq
+      simp only [heq, List.length_cons]
+      rw [if_neg (by omega), if_pos (by omega)]
+    · rename_i c heq
+      simp only [heq, List.length_cons, List.length_nil]
+      rw [if_neg (by omega), if_neg (by omega)]
+      have hlt : ∀ n : Nat, ((n : Int) < 2) = (n < 2) := by intro n; apply propext; omega
+      have h0 : ∀ n : Nat, (0 < (n : Int) + 0) = (n > 0) := by intro n; apply propext; omega
+      have h1 : ∀ n m : Nat, ((n : Int) + 1 < (m : Int)) = (n + 1 < m) := by intro n m; apply propext; omega
+      simp only [hlt, h0, h1, beq_iff_eq, List.getD_cons_zero, List.getD_cons_succ, String.reduceEq, if_true, if_false,
+        ite_true, ite_false, Int.toNat_zero, List.replicate_zero, gt_iff_lt]
+      rfl
+
+/-- [text; semantic through `gen_open_slicer`] the index offsets: the polyline is split at `transition_points + 1`, the
+    sign of a component is read at `0` and at `transition_points + 1`. -/
 theorem gen_cut_offsets :
     PW.Gen.PolySlice.splitCoef = 1 ∧ PW.Gen.PolySlice.splitOffset = 1 ∧ PW.Gen.PolySlice.signIndexFirst = 0 ∧
     PW.Gen.PolySlice.signIndexCoef = 1 ∧ PW.Gen.PolySlice.signIndexOffset = 1 ∧
-    PW.Gen.PolySlice.sameTransitionPoints = true := by decide
+    PW.Gen.PolySlice.sameTransitionPoints = some true := by decide
 
-/-- the refusals, in the code's order: no vertices (`num_v == 0`); `len(components_in_front) == 0`; `> 1`;
-    `len(components) < 2` — all `ValueError` (the model's `vs.length = 0`, and its match on `[]`, `_ :: _ :: _`,
-    `components.length < 2`). -/
+/-- [text; semantic through `gen_open_slicer`] the refusals, in the code's order: no vertices (`num_v == 0`);
+    `len(components_in_front) == 0`; `> 1`; `len(components) < 2` — all `ValueError`. -/
 theorem gen_refusals :
     (PW.Gen.PolySlice.emptyCmp = .eq ∧ PW.Gen.PolySlice.emptyRhs = 0 ∧ PW.Gen.PolySlice.emptyRaises = "ValueError") ∧
     (PW.Gen.PolySlice.noneInFrontCmp = .eq ∧ PW.Gen.PolySlice.noneInFrontRhs = 0 ∧ PW.Gen.PolySlice.noneInFrontOf = "CIF") ∧
     (PW.Gen.PolySlice.tooManyCmp = .gt ∧ PW.Gen.PolySlice.tooManyRhs = 1 ∧ PW.Gen.PolySlice.tooManyOf = "CIF") ∧
     (PW.Gen.PolySlice.allInFrontCmp = .lt ∧ PW.Gen.PolySlice.allInFrontRhs = 2 ∧
       PW.Gen.PolySlice.allInFrontOf = "COMPONENTS") ∧
-    PW.Gen.PolySlice.sameComponentsInFront = true ∧
+    PW.Gen.PolySlice.sameComponentsInFront = some true ∧
     PW.Gen.PolySlice.refusalRaises = ["ValueError", "ValueError", "ValueError"] := by
   refine ⟨⟨by decide, by decide, rfl⟩, ⟨by decide, by decide, rfl⟩, ⟨by decide, by decide, rfl⟩,
     ⟨by decide, by decide, rfl⟩, by decide, by decide⟩
 
-/-- the kept run and the rows put before / after it (`> 0`, `- 1`, `[-1]`, `== 0`, `+ 1 <`, `[0]`, and the arguments
-    of the two calls of the local crossing helper, CROSSING): the `prepend` / `append` blocks of the model's
-    `sliceOpenRunsG`. -/
+/-- [text; semantic through `gen_open_slicer`] the kept run and the rows put before / after it, as normalised text and
+    as the structured pieces `gen_open_slicer` computes with. -/
 theorem gen_run_ends :
-    PW.Gen.PolySlice.runSrc = "COMPONENTS[C]" ∧ PW.Gen.PolySlice.runIsTheOneInFront = true ∧
-    PW.Gen.PolySlice.prependSrc =
-      "(COMPONENTS[C - 1][-1] if CSIGNS[C - 1] == 0 else CROSSING(COMPONENTS[C - 1][-1], FRONT[0])) if C > 0 else np.zeros((0, 3))" ∧
-    PW.Gen.PolySlice.appendSrc =
-      "(COMPONENTS[C + 1][0] if CSIGNS[C + 1] == 0 else CROSSING(FRONT[-1], COMPONENTS[C + 1][0])) if C + 1 < len(COMPONENTS) else np.zeros((0, 3))" :=
-  ⟨rfl, rfl, rfl, rfl⟩
+    (PW.Gen.PolySlice.runSrc = "COMPONENTS[C]" ∧ PW.Gen.PolySlice.runIsTheOneInFront = some true ∧
+      PW.Gen.PolySlice.prependSrc =
+        "(COMPONENTS[C - 1][-1] if CSIGNS[C - 1] == 0 else CROSSING(COMPONENTS[C - 1][-1], FRONT[0])) if C > 0 else np.zeros((0, 3))" ∧
+      PW.Gen.PolySlice.appendSrc =
+        "(COMPONENTS[C + 1][0] if CSIGNS[C + 1] == 0 else CROSSING(FRONT[-1], COMPONENTS[C + 1][0])) if C + 1 < len(COMPONENTS) else np.zeros((0, 3))") ∧
+    (PW.Gen.PolySlice.prependGuardCmp = .gt ∧ PW.Gen.PolySlice.prependGuardOffset = 0 ∧
+      PW.Gen.PolySlice.prependGuardRhs = 0 ∧ PW.Gen.PolySlice.prependCompOffset = -1 ∧
+      PW.Gen.PolySlice.prependRowIndex = -1 ∧ PW.Gen.PolySlice.prependOnPlaneCmp = .eq ∧
+      PW.Gen.PolySlice.prependSignOffset = -1 ∧ PW.Gen.PolySlice.prependOnPlaneRhs = 0 ∧
+      PW.Gen.PolySlice.prependCrossOrder = ["neighbour", "run"] ∧ PW.Gen.PolySlice.prependRunIndex = 0 ∧
+      PW.Gen.PolySlice.prependEmptyRows = 0) ∧
+    (PW.Gen.PolySlice.appendGuardCmp = .lt ∧ PW.Gen.PolySlice.appendGuardOffset = 1 ∧
+      PW.Gen.PolySlice.appendCompOffset = 1 ∧ PW.Gen.PolySlice.appendRowIndex = 0 ∧
+      PW.Gen.PolySlice.appendOnPlaneCmp = .eq ∧ PW.Gen.PolySlice.appendSignOffset = 1 ∧
+      PW.Gen.PolySlice.appendOnPlaneRhs = 0 ∧ PW.Gen.PolySlice.appendCrossOrder = ["run", "neighbour"] ∧
+      PW.Gen.PolySlice.appendRunIndex = -1 ∧ PW.Gen.PolySlice.appendEmptyRows = 0) :=
+  ⟨⟨rfl, by decide, rfl, rfl⟩, by decide, by decide⟩
 
 /-- the local helper `intersection_with_plane(start, end)`: `(d_s, d_e) = plane.signed_distance([start, end])`,
     `start + d_s / (d_s - d_e) * (end - start)`: the model's `crossing` divides by exactly the generated combination
@@ -580,7 +727,7 @@ theorem gen_run_ends :
 theorem gen_crossing :
     PW.Gen.PolySlice.crossingDistancesSrc = "plane.signed_distance(np.array([START, END]))" ∧
     PW.Gen.PolySlice.crossingSrc = "(END - START) * (D_START / (D_START - D_END)) + START" ∧
-    PW.Gen.PolySlice.crossingNumeratorIsStart = true ∧ PW.Gen.PolySlice.crossingDenStartCoef = 1 ∧
+    PW.Gen.PolySlice.crossingNumeratorIsStart = some true ∧ PW.Gen.PolySlice.crossingDenStartCoef = 1 ∧
     PW.Gen.PolySlice.crossingDenEndCoef = -1 ∧
     ∀ (pl : Plane K) (a b : V3 K), crossing pl a b =
       a + V3.smul (pl.signedDistance a /
@@ -605,7 +752,7 @@ theorem gen_closed_roll :
       PW.Gen.PolySlice.rollBackIndex = -1 ∧ PW.Gen.PolySlice.rollFrontIndex = 0 ∧
       PW.Gen.PolySlice.rollBackLenCmp = .gt ∧ PW.Gen.PolySlice.rollBackLenRhs = 0 ∧
       PW.Gen.PolySlice.rollFrontLenCmp = .gt ∧ PW.Gen.PolySlice.rollFrontLenRhs = 0 ∧
-      PW.Gen.PolySlice.rollBackConsistent = true ∧ PW.Gen.PolySlice.rollFrontConsistent = true) ∧
+      PW.Gen.PolySlice.rollBackConsistent = some true ∧ PW.Gen.PolySlice.rollFrontConsistent = some true) ∧
     PW.Gen.PolySlice.rollSrc =
       "(-VNF[-1] if len(VNF) > 0 else 0) if SIGNS[-1] == 1 else -VIF[0] + 1 if len(VIF) > 0 else 0" ∧
     ∀ signs : List Int, closedRoll signs =
@@ -634,23 +781,40 @@ theorem gen_closed_roll :
     PW.Gen.PolySlice.rollFrontElse, neg_one_mul, add_zero]
   rfl
 
-/-- what the closed branch hands to the open slicer: `np.roll(self.v, roll, axis=0)` with its first row repeated at the
-    end, when `self.is_closed and self.num_v > 1`; the result is an open `Polyline` (the model's `workingVertices`,
-    `slicedByPlaneG`). -/
+/-- [semantic + text] what the closed branch hands to the open slicer.  Semantic: the model's `workingVertices` takes the
+    closed branch exactly when `closed` and `num_v > 1` (generated operator and bound), and repeats the first
+    `repeatStop` rows of the rolled list at its end; `slicedByPlaneG` returns the open slicer's rows with the generated
+    `is_closed` flag.  Text only: the `…Src` strings (record) and `rollAxis` (`axis=0`: rows — lists have no axis). -/
 theorem gen_working_vertices :
-    PW.Gen.PolySlice.closedSignsSrc = "np.sign(plane.signed_distance(self.v))" ∧
-    PW.Gen.PolySlice.rolledSrc = "np.roll(self.v, ROLL, axis=0)" ∧
-    PW.Gen.PolySlice.workingSrc = "np.vstack([ROLLED, ROLLED[:1]]) if self.is_closed and self.num_v > 1 else self.v" ∧
-    PW.Gen.PolySlice.closedGuardSrc = "self.is_closed and self.num_v > 1" ∧
-    PW.Gen.PolySlice.resultSrc = "Polyline(is_closed=False, v=slice_open_polyline_by_plane(WORKING, plane))" :=
-  ⟨rfl, rfl, rfl, rfl, rfl⟩
+    (PW.Gen.PolySlice.closedSignsSrc = "np.sign(plane.signed_distance(self.v))" ∧
+      PW.Gen.PolySlice.rolledSrc = "np.roll(self.v, ROLL, axis=0)" ∧
+      PW.Gen.PolySlice.workingSrc = "np.vstack([ROLLED, ROLLED[:1]]) if self.is_closed and self.num_v > 1 else self.v" ∧
+      PW.Gen.PolySlice.closedGuardSrc = "self.is_closed and self.num_v > 1" ∧
+      PW.Gen.PolySlice.resultSrc = "Polyline(is_closed=False, v=slice_open_polyline_by_plane(WORKING, plane))" ∧
+      PW.Gen.PolySlice.closedGuardLhs = "self.num_v" ∧ PW.Gen.PolySlice.rollAxis = 0) ∧
+    (∀ {α : Type} (sg : α → Int) (closed : Bool) (vs : List α), workingVertices sg closed vs =
+      if closed && PW.Gen.PolySlice.closedGuardCmp.test (vs.length : Int) PW.Gen.PolySlice.closedGuardRhs then
+        npRoll vs (closedRoll (vs.map sg)) ++
+          (npRoll vs (closedRoll (vs.map sg))).take PW.Gen.PolySlice.repeatStop.toNat
+      else vs) ∧
+    (∀ {α β : Type} (sg : α → Int) (cross : α → α → β) (keep : α → β) (closed : Bool) (vs : List α),
+      slicedByPlaneG sg cross keep closed vs =
+        match sliceOpenRunsG sg cross keep (workingVertices sg closed vs) with
+        | .ok v => .ok (v, PW.Gen.PolySlice.resultIsClosed.getD true)
+        | .error e => .error e) := by
+  refine ⟨⟨rfl, rfl, rfl, rfl, rfl, rfl, by decide⟩, ?_, ?_⟩
+  · intro α sg closed vs
+    simp [workingVertices, PW.Gen.Cmp.test, PW.Gen.PolySlice.closedGuardCmp, PW.Gen.PolySlice.closedGuardRhs,
+      PW.Gen.PolySlice.repeatStop]
+  · intro α β sg cross keep closed vs
+    rfl
 
 /-- `intersect_segment_with_plane`: `T = nan_to_num(dot(q − start, n) / dot(vec, n))`, point `start + T * vec`, row set
     to NaN when `T < 0` or `T > 1`: for a non-zero denominator the model's `intersectSegmentWithPlane` is exactly this
     with the generated operators and bounds. -/
 theorem gen_nan_rules :
     (PW.Gen.PolySlice.nanLowCmp = .lt ∧ PW.Gen.PolySlice.nanLowRhs = 0 ∧ PW.Gen.PolySlice.nanHighCmp = .gt ∧
-      PW.Gen.PolySlice.nanHighRhs = 1 ∧ PW.Gen.PolySlice.nanRulesOk = true) ∧
+      PW.Gen.PolySlice.nanHighRhs = 1 ∧ PW.Gen.PolySlice.nanRulesOk = some true) ∧
     PW.Gen.PolySlice.paramSrc =
       "np.nan_to_num(vg.dot(points_on_plane - start_points, plane_normals) / vg.dot(segment_vectors, plane_normals))" ∧
     PW.Gen.PolySlice.pointSrc = "T.reshape(-1, 1) * segment_vectors + start_points" ∧
@@ -666,5 +830,17 @@ theorem gen_nan_rules :
   simp only [if_pos hden]
   simp [PW.Gen.Cmp.test, PW.Gen.PolySlice.nanLowCmp, PW.Gen.PolySlice.nanLowRhs, PW.Gen.PolySlice.nanHighCmp,
     PW.Gen.PolySlice.nanHighRhs]
+
+/-- [text] what the symbolic reader does not interpret, pinned to the source the model was written from: for every
+    function read by `harness/translate/c06.py` (and the local crossing helper, found by structure) its decorators, its
+    parameter list with defaults, the statements whose effect is not modelled (imports, shape checks, the `def` of the
+    local helper — any added in-place call, loop, `with`, `try`, `del`, … shows up here), and the number of other
+    bindings of its name in the enclosing scope. -/
+theorem gen_function_shapes :
+    PW.Gen.PolySlice.functionShapes =
+      [("slice_open_polyline_by_plane", [], "vertices, plane", ["importfrom from .. import Plane", "def"], 0),
+       ("slice_open_polyline_by_plane.<local helper>", [], "2 positional", [], 0),
+       ("Polyline.sliced_by_plane", [], "self, plane", ["importfrom from ._slice_by_plane import slice_open_polyline_by_plane"], 0),
+       ("intersect_segment_with_plane", [], "start_points, segment_vectors, points_on_plane, plane_normals", ["expr vg.shape.check(locals(), 'segment_vectors', start_points.shape)", "expr vg.shape.check(locals(), 'points_on_plane', start_points.shape)", "expr vg.shape.check(locals(), 'plane_normals', start_points.shape)"], 0)] := by rfl
 
 end PW.C06
